@@ -29,6 +29,11 @@ type line struct {
 	Obs  any            `json:"obs"`
 	Tags map[string]int `json:"tags,omitempty"`
 	Desc string         `json:"desc,omitempty"`
+	// stream `refs` only: C02's flat view of the same objects and the generated matches.json
+	Flat    any    `json:"flat,omitempty"`
+	Matches string `json:"matches,omitempty"`
+	// RefSvcs: keys of the real graph.ReferencedServices ("ns/name", sorted)
+	RefSvcs []string `json:"refsvcs,omitempty"`
 }
 
 var w *bufio.Writer
@@ -429,7 +434,7 @@ func Run(args []string) int {
 	fs := flag.NewFlagSet("c06", flag.ContinueOnError)
 	seed := fs.Uint64("seed", 1, "")
 	n := fs.Int("n", 100, "number of cases")
-	mode := fs.String("mode", "e2e", "res | val | cube | e2e | scen | seq | replay | mkcorpus")
+	mode := fs.String("mode", "e2e", "res | val | cube | e2e | scen | seq | refs | replay | mkcorpus")
 	steps := fs.Int("steps", 4, "events batches per sequence")
 	file := fs.String("file", "", "replay: JSON array of typed objects (pipeline.EncodeObjects)")
 	if err := fs.Parse(args); err != nil {
@@ -451,6 +456,8 @@ func Run(args []string) int {
 		runScen(r, *n)
 	case "seq":
 		runSeq(r, *n, *steps)
+	case "refs":
+		runRefs(r, *n)
 	case "mkcorpus":
 		for name, objs := range CorpusScenarios() {
 			if err := os.WriteFile(filepath.Join(*file, name+".json"), append(p.EncodeObjects(objs), '\n'), 0o644); err != nil {
